@@ -1,13 +1,14 @@
 """Helpers for checks/c03.py: perform one enumerated constructor call on the real library.
 
-call_row(ctor, args)  args = the sequence of [slot, tag, t, k, s, l, dom] records of MC_CmdApi;
+call_row(ctor, args)  args = the sequence of [slot, tag, t, k, s, l, dom] records of MC_CmdApi (value_of: class -> value;
+                      datetimes finer than the wire and the containers of a sequence are built here, fresh per call);
                       returns the observation record CmdApiTrace judges.
 Python only concretises (class -> value), calls, and normalises what the decoder reports; the
 expectations (API key, domain, wanted values) live in spec/CmdApi.tla.
 """
 from __future__ import annotations
 
-from datetime import datetime as dt
+from datetime import datetime as dt, timedelta as td
 from typing import Any
 
 CTL, OTB, BDR, FAN, REM, RND, DHW, OUT, CO2, GWY = (
@@ -34,11 +35,35 @@ def value_of(a: dict) -> Any:
         return a["s"]
     if t == "bool":
         return bool(a["k"])
-    if t == "dtm":
-        return dt.fromisoformat(a["s"])
-    if t == "list":
-        return list(a["l"])
+    if t in ("dtm", "dtmtxt"):
+        v = dt.fromisoformat(a["s"])
+        if a["k"]:  # finer than the wire: s = the wire instant it lies in, k = microseconds beyond it, l = [the next wire instant]
+            unit = dt.fromisoformat(a["l"][0]) - v
+            if unit not in (td(seconds=1), td(minutes=1)) or not td(0) < td(microseconds=a["k"]) < unit:
+                raise ValueError(f"class {a['tag']}: {a['s']} + {a['k']} us is not inside ({a['s']}, {a['l'][0]})")
+            v += td(microseconds=a["k"])
+        return v if t == "dtm" else v.isoformat()
+    if t in SEQ_KINDS:  # a sequence of strings, by the container it is handed over in (a fresh one per call)
+        return SEQ_KINDS[t](list(a["l"]))
     raise ValueError(t)
+
+
+SEQ_KINDS = {
+    "list": list,
+    "tuple": tuple,
+    "keys": lambda q: dict.fromkeys(q).keys(),
+    "set": set,
+    "gen": lambda q: (c for c in q),
+    "iter": iter,
+    "map": lambda q: map(str, q),
+}
+
+
+def show(a: dict) -> str:
+    """The argument as text that is the same in every run (an iterator's repr has an address)."""
+    if a["t"] in SEQ_KINDS and a["t"] not in ("list", "tuple"):
+        return {"keys": "dict.keys() of ", "set": "set of ", "gen": "generator of ", "iter": "iter() of ", "map": "map() of "}[a["t"]] + repr(list(a["l"]))
+    return repr(value_of(a))
 
 
 def build(ctor: str, args: list[dict]) -> Any:
